@@ -125,3 +125,21 @@ def blank_after_statement(oracle):
                     probs.append('at the blank position after `%s` in %r completion does not offer %s, which are in scope there (offered: %s)' % (stmt % pat, b, missing, sorted(got)[:12]))
     return n, probs
 
+
+# a name bound more than once along the scope chain with DIFFERENT types: the item offered is the innermost binding (the one the name denotes there)
+REBIND = [('fn f(x: Int) {\n  let x = "s"\n  x$0\n}\n', 'x', 'String', 'a let re-binding a parameter'),
+          ('fn f(x: Int) {\n  let y = 1.5\n  let y = "s"\n  y$0\n}\n', 'y', 'String', 'a let re-binding an earlier let'),
+          ('fn f(x: Int) {\n  case "s" { x -> x$0 }\n}\n', 'x', 'String', 'a case-clause binder re-using the name of a parameter'),
+          ('fn f(x: Int) {\n  let x = "s"\n  $0\n}\n', 'x', 'String', 'a let re-binding a parameter, nothing typed yet')]
+
+
+def rebinding_probes(oracle):
+    probs = []
+    for b, name, want, what in REBIND:
+        off = len(b[:b.index('$0')].encode('utf-8')); t = b.replace('$0', '')
+        r = oracle.ask('complete', json.dumps({'text': t, 'offsets': [off], 'details': True}))
+        items = [i for i in ((r.get('complete') or [None])[0] or []) if i[0] == name] if isinstance(r, dict) else None
+        if items is None or len(items) != 1 or items[0][1] != want:
+            probs.append('%s (%r): completion describes `%s` as %s; at that position the name denotes the innermost binding, of type %s' % (what, t, name, items, want))
+    return probs
+
